@@ -97,7 +97,7 @@ COOKIE_VALUES = [None, None, None, 'a b', 'a\tb', 'x"y', '"q q"', '\xe9', 'a,b',
 def gen_case(rng):
     n_hops = rng.choice([1, 1, 2, 3, 4, 6])
     hops = []
-    proxy = rng.choice([False, False, False, False, False, True, True, 'tls', 'tunnel', 'tunnel'])
+    proxy = rng.choice([False, False, False, False, False, True, True, 'tls', 'tunnel', 'tunnel', 'auth', 'auth'])
     for i in range(n_hops):
         # 'tunnel': https URLs through a proxy (CONNECT, then TLS inside the tunnel)
         hops.append({'url': gen_hop_url(rng, scheme='https' if proxy == 'tunnel' else 'http'), 'code': rng.choice(REDIRECT_CODES), 'set_cookie': rng.random() < 0.4,
@@ -112,6 +112,7 @@ def gen_case(rng):
     if rng.random() < 0.35:
         case['credentials'] = rng.choice([['user', 'pw'], ['us er', 'p:w'], ['ü', 'pä'], ['a\r\nX: 1', 'b'],
                                           # user info that looks like another authority once its escapes are decoded
+                                          ['user', 'p' * 60], ['u' * 30, 'token-' + 'x' * 70],
                                           ['b.test', 'p/x'], ['c.test', 'a@b'], ['b.test', 'x\\y?z#w'], ['c.test:80', '/@/']])
         if case['credentials'][0].split(':')[0] in ('b.test', 'c.test'):
             case['other_host_cookie'] = case['credentials'][0].split(':')[0]
@@ -120,6 +121,15 @@ def gen_case(rng):
         case['credential_mode'] = rng.choice(['url', 'login'])
         case['challenge'] = case['credential_mode'] == 'login'
     return case
+
+
+PROXY_EXEMPT = ('b.test',)      # with proxy mode 'auth' the pool's host filter sends these hosts directly
+
+
+def via_proxy(case, info):
+    if not case.get('proxy'):
+        return False
+    return not (case['proxy'] == 'auth' and info.hostname in PROXY_EXEMPT)
 
 
 def run_case(case, part):
@@ -166,7 +176,7 @@ def run_case(case, part):
             peers = {}
 
             def peer_for(info):
-                if case.get('proxy'):
+                if via_proxy(case, info):
                     key = ('127.0.2.100', 3128)
                     if key not in peers:
                         peers[key] = LoggingPeer(shared, key[0], key[1])
@@ -219,8 +229,13 @@ def run_case(case, part):
                 from wpull.proxy.client import HTTPProxyConnectionPool
                 # 'tls': the hop to the proxy itself is encrypted (--https-proxy); the proxy still relays, so it needs the
                 # absolute URL exactly as a plain proxy does
+                extra = {}
+                if case['proxy'] == 'auth':
+                    # an authenticating proxy, with some hosts exempt from it (--proxy-exclude-hostnames)
+                    from wpull.proxy.hostfilter import HostFilter
+                    extra = {'authentication': ('proxy-account', 'proxy-s3cret'), 'host_filter': HostFilter(reject_hostnames=list(PROXY_EXEMPT))}
                 pool = HTTPProxyConnectionPool(('127.0.2.100', 3128), resolver=netsim.StaticResolver(table),
-                                               proxy_ssl=case['proxy'] == 'tls')
+                                               proxy_ssl=case['proxy'] == 'tls', **extra)
             else:
                 pool = ConnectionPool(resolver=netsim.StaticResolver(table))
             jar = CookieJar()
@@ -296,7 +311,7 @@ def run_case(case, part):
     repeat_chain = any(c in (307, 308) for c in codes)
     cls = 'replay-redirect' if repeat_chain else ('redirect' if codes else 'direct')
     if case.get('proxy'):
-        cls = {'tls': 'tls-proxied-', 'tunnel': 'tunnelled-'}.get(case['proxy'], 'proxied-') + cls
+        cls = {'tls': 'tls-proxied-', 'tunnel': 'tunnelled-', 'auth': 'auth-proxied-'}.get(case['proxy'], 'proxied-') + cls
     part.nontrivial_case('{}/{}/{}/{}'.format(cls, len(hops), bool(case['credentials']), sorted(set(codes))))
     # which cookies / credentials each host may legitimately receive
     cookie_origin = {}
@@ -339,13 +354,13 @@ def run_case(case, part):
                                {'tunnel': tunnel_of[cid], 'expected': want_authority, 'url': info.url}, replay)
             else:
                 part.count('tunnel_authority_matches_hop')
-        elif case.get('proxy'):
+        elif via_proxy(case, info):
             # absolute-form: the hop's normalized URL
             want_target = info.url
             part.count('proxied_requests_captured')
             if case['proxy'] == 'tls':
                 part.count('requests_relayed_by_tls_proxy_captured')
-        if case.get('proxy') and case['proxy'] != 'tunnel':
+        if via_proxy(case, info) and case['proxy'] != 'tunnel':
             # a relative Location keeps the authority of its base, including user info (RFC 3986 5.2): compare the
             # absolute form without user info
             strip = lambda u: re.sub(r'^(https?://)[^/@]*@', r'\1', u)  # noqa
@@ -354,6 +369,10 @@ def run_case(case, part):
             target_cmp, want_cmp = target, want_target
         if target_cmp != want_cmp:
             part.violation('request-target-differs/' + cls, {'target': target, 'expected': want_target, 'url': info.url}, replay)
+        if any(n == 'proxy-authorization' for n, v in fields) and (addr, port) != ('127.0.2.100', 3128):
+            part.violation('proxy-credentials-sent-to-an-origin-server/' + cls, {'to': host_of(info), 'raw': raw[:200]}, replay)
+        elif case.get('proxy') == 'auth' and (addr, port) != ('127.0.2.100', 3128):
+            part.count('direct_requests_beside_an_authenticating_proxy')
         hosts = [v for n, v in fields if n == 'host']
         for hv in hosts:
             # independent of wpull's own URL parser: a Host value is a reg-name / IP literal with an optional port
